@@ -216,7 +216,7 @@ PROPS = {
     },
     'C09': {
         'id': 'C09', 'area': 'mrg',
-        'theorems': ['Props.C09_perm', 'Props.C09_source_order', 'Props.C09_sorted', 'Props.C09_chain', 'Props.C09_index'],
+        'theorems': ['Props.C09_perm', 'Props.C09_source_order', 'Props.C09_sorted', 'Props.C09_chain', 'Props.C09_index', 'Props.C09_or_single_multi', 'Props.C09_or_single_numbering_partial', 'Props.C09_single_source_witness'],
         'n_quick': 5000, 'n_thorough': 200000,
     },
     'C11': {
